@@ -22,6 +22,8 @@ def validate_encoded(string):
       "and orientations")
 
 def validate_decoded(iterable):
+  if len(iterable) == 0:
+    raise gfapy.ValueError("the list of oriented identifiers is empty")
   for elem in iterable:
     if not isinstance(elem, gfapy.OrientedLine):
       raise gfapy.TypeError(
